@@ -74,7 +74,7 @@ func runC12(c *core.Ctx) {
 	}
 	rec(t, false)
 	for _, st := range stagesOf(c, t, e, true) {
-		if st.name == "unknowing" || st.name == "partly-unknowing" {
+		if st.name == "unknowing" || st.name == "partly-unknowing" || st.name == "from-old-peer" || st.name == "payloads-dropped" {
 			continue // retention is claimed between processes that know the types
 		}
 		c.Cover("stage", st.name)
